@@ -174,7 +174,8 @@ def worker_main(argv):
         j = res.to_json()
         j['wall'] = time.time() - t0
         if j['wall'] > t_budget:
-            j['inconclusive'].append(f'case watchdog: {j["wall"]:.0f}s')
+            # the case ran to completion, so its verdict stands; slowness is reported, not turned into a verdict
+            j['counters']['slow_cases_over_%ds' % int(t_budget)] = 1
         out.append(j)
         with open(out_path, 'w') as fh:
             json.dump(out, fh)
